@@ -119,3 +119,98 @@ def zone_questions(r, z, cap=80, labels=LABELS):
     qs = qs[:cap]
     qs.append({"name": ["outside", "invalid"], "type": "A"})
     return qs
+
+
+# ---------------------------------------------------------------------------
+# wire-level messages (octet notation of specs/Wire.tla)
+
+RAW_TYPES = [10, 11, 13, 16]
+NAME1_TYPES = [2, 3, 4, 5, 7, 8, 9, 12]
+
+
+def wire_label(r, maxlen=12, lower=True):
+    n = r.choice([1, 1, 2, 3, 5, 8, maxlen, r.randint(1, maxlen)])
+    alphabet = list(range(97, 123)) + list(range(48, 58)) + [45]
+    if not lower:
+        alphabet += list(range(65, 91))
+    if r.random() < 0.15:
+        alphabet = [x for x in range(0, 256) if lower is False or not (65 <= x <= 90)]
+    return [r.choice(alphabet) for _ in range(n)]
+
+
+def wire_name(r, pool=None, maxlabels=5, lower=True):
+    if pool and r.random() < 0.6:
+        return [list(l) for l in r.choice(pool)]
+    x = r.random()
+    if x < 0.05:
+        return []
+    if x < 0.12:
+        # boundary names: maximal labels / maximal total length (255 octets encoded)
+        labels = []
+        total = 1
+        while True:
+            ln = r.choice([63, 63, 62, 1, 30])
+            if total + 1 + ln > 255:
+                ln = 255 - total - 1
+                if ln <= 0:
+                    break
+                labels.append([r.choice(range(97, 123)) for _ in range(ln)])
+                break
+            labels.append([r.choice(range(97, 123)) for _ in range(ln)])
+            total += 1 + ln
+        return labels
+    name = [wire_label(r, lower=lower) for _ in range(r.randint(1, maxlabels))]
+    while sum(len(l) + 1 for l in name) + 1 > 255:
+        name.pop()
+    if pool is not None and r.random() < 0.7:
+        if name and pool and r.random() < 0.4:
+            sfx = r.choice(pool)
+            cand = name[:2] + [list(l) for l in sfx]
+            if sum(len(l) + 1 for l in cand) + 1 <= 255:
+                name = cand
+        pool.append(name)
+    return name
+
+
+def wire_rr(r, pool, rawmax=40, types=None, lower=True):
+    t = r.choice(types or ([1, 28, 6, 14, 15, 33] + NAME1_TYPES + RAW_TYPES + [r.choice([0, 17, 41, 99, 251, 256, 65535])]))
+    names, ints, raw = [], [], []
+    if t == 1:
+        raw = [r.randint(0, 255) for _ in range(4)]
+    elif t == 28:
+        raw = [r.randint(0, 255) for _ in range(16)]
+    elif t in NAME1_TYPES:
+        names = [wire_name(r, pool, lower=lower)]
+    elif t == 6:
+        names = [wire_name(r, pool, lower=lower), wire_name(r, pool, lower=lower)]
+        ints = [r.choice([0, 1, 65535, r.randint(0, 65535)]) for _ in range(10)]
+    elif t == 14:
+        names = [wire_name(r, pool, lower=lower), wire_name(r, pool, lower=lower)]
+    elif t == 15:
+        ints = [r.randint(0, 65535)]
+        names = [wire_name(r, pool, lower=lower)]
+    elif t == 33:
+        ints = [r.randint(0, 65535) for _ in range(3)]
+        names = [wire_name(r, pool, lower=lower)]
+    else:
+        n = r.choice([0, 0, 1, 5, rawmax, r.randint(0, rawmax)])
+        raw = [r.randint(0, 255) for _ in range(n)]
+    return {"name": wire_name(r, pool, lower=lower), "type": t, "class": r.choice([1, 1, 1, 3, 254, 255, 0, 65535]),
+            "ttl": [r.choice([0, 1, 65535, r.randint(0, 65535)]), r.choice([0, 300, 65535, r.randint(0, 65535)])],
+            "names": names, "ints": ints, "raw": raw}
+
+
+def wire_msg(r, maxrr=6, rawmax=40, lower=True, nq=None):
+    pool = []
+    m = {"id": r.randint(0, 65535), "qr": r.random() < 0.5, "opcode": r.choice([0, 0, 0, 1, 2, r.randint(0, 15)]),
+         "aa": r.random() < 0.5, "tc": r.random() < 0.2, "rd": r.random() < 0.5, "ra": r.random() < 0.5,
+         "rcode": r.choice([0, 0, 3, 2, r.randint(0, 15)]),
+         "questions": [], "answers": [], "authority": [], "additional": []}
+    for _ in range(r.choice([1, 1, 1, 0, 2]) if nq is None else nq):
+        m["questions"].append({"name": wire_name(r, pool, lower=lower),
+                               "qtype": r.choice([1, 2, 5, 15, 16, 28, 255, 252, 253, 254, r.randint(0, 65535)]),
+                               "qclass": r.choice([1, 1, 255, 3, r.randint(0, 65535)])})
+    for sec in ("answers", "authority", "additional"):
+        for _ in range(r.randint(0, maxrr)):
+            m[sec].append(wire_rr(r, pool, rawmax, lower=lower))
+    return m
